@@ -49,6 +49,13 @@
 
 namespace Avoid {
 
+#ifdef ADAPTAGRAMS_VERIF
+// Verification hook: what the last successful AStarPathPrivate::search() ended with:
+// { id of the connector, g of the popped target node, exploredCount, PENDING.size() after the pop,
+//   value of the timestamp counter }.  Read by /verif's C05 harness (extern declaration there).
+double verifAStarLast[5] = { -1, -1, -1, -1, -1 };
+#endif
+
 class ANode
 {
     public:
@@ -1254,6 +1261,13 @@ void AStarPathPrivate::search(ConnRef *lineRef, VertInf *src, VertInf *tar, Vert
                     (int) exploredCount, bestNode->f);
 #endif
      
+#ifdef ADAPTAGRAMS_VERIF
+            verifAStarLast[0] = (double) lineRef->id();
+            verifAStarLast[1] = bestNode->g;
+            verifAStarLast[2] = (double) exploredCount;
+            verifAStarLast[3] = (double) PENDING.size();
+            verifAStarLast[4] = (double) timestamp;
+#endif
             // Correct all the pathNext pointers.
             for (ANode *curr = bestNode; curr->prevNode; curr = curr->prevNode)
             {
